@@ -16,67 +16,127 @@ from pathlib import Path
 
 from .common import HEADER, Unsupported, find_function, write_if_changed
 
-# source expression (unparsed, after stripping `set(..)` / `dict(..)` copies) -> role
-LEAF_ROLES = {
-    "base_parameter_values": "pars",
-    "base_variable_values": "vars",
+# source expressions with a fixed role (attributes of self / the cache); LOCAL names get their role from how they
+# are defined (see local_roles), so renaming a local does not disturb the translation
+FIXED_ROLES = {
     "self._data": "data",
-    "initial_assignments": "ias",
     "self._derived": "derived",
     "self._reactions": "rxns",
     "self._surrogates": "surs",
-    "cache.all_parameter_values": "allpars",
-    "variables": "state",
 }
 
 
-def leaf_role(e: ast.expr) -> str:
+def _comp_role(e: ast.expr) -> str | None:
+    """{k: x for k, v in self._parameters.items() if [not] isinstance(x := v.value, InitialAssignment)} -> role"""
+    if not (isinstance(e, ast.DictComp) and len(e.generators) == 1 and len(e.generators[0].ifs) == 1):
+        return None
+    g = e.generators[0]
+    src = ast.unparse(g.iter)
+    cond = g.ifs[0]
+    neg = isinstance(cond, ast.UnaryOp) and isinstance(cond.op, ast.Not)
+    call = cond.operand if neg else cond
+    if not (isinstance(call, ast.Call) and isinstance(call.func, ast.Name) and call.func.id == "isinstance"
+            and len(call.args) == 2 and ast.unparse(call.args[1]) == "InitialAssignment"):
+        return None
+    tested = ast.unparse(call.args[0])
+    if src == "self._parameters.items()" and tested.endswith("v.value)"):
+        return "pars" if neg else "ia_pars"
+    if src == "self._variables.items()" and tested.endswith("v.initial_value)"):
+        return "vars" if neg else "ia_vars"
+    return None
+
+
+def local_roles(fn: ast.FunctionDef) -> dict[str, str]:
+    roles: dict[str, str] = {}
+    for n in ast.walk(fn):
+        if isinstance(n, ast.Assign) and len(n.targets) == 1 and isinstance(n.targets[0], ast.Name):
+            tgt, val = n.targets[0].id, n.value
+        elif isinstance(n, ast.AnnAssign) and isinstance(n.target, ast.Name) and n.value is not None:
+            tgt, val = n.target.id, n.value
+        else:
+            continue
+        r = _comp_role(val)
+        if r in ("pars", "vars"):
+            roles[tgt] = r
+        elif (isinstance(val, ast.BinOp) and isinstance(val.op, ast.BitOr)
+              and _comp_role(val.left) == "ia_vars" and _comp_role(val.right) == "ia_pars"):
+            # the model's `omUnion (iaOf c.vars) (iaOf c.pars)`: variables' assignments first
+            roles[tgt] = "ias"
+    return roles
+
+
+def leaf_role(e: ast.expr, roles: dict[str, str]) -> str:
     # set(x) / dict(x): a copy or the key set of x — same role
     if (isinstance(e, ast.Call) and isinstance(e.func, ast.Name) and e.func.id in ("set", "dict")
             and len(e.args) == 1 and not e.keywords):
-        return leaf_role(e.args[0])
+        return leaf_role(e.args[0], roles)
     if isinstance(e, ast.Set) and len(e.elts) == 1 and isinstance(e.elts[0], ast.Constant) and e.elts[0].value == "time":
         return "time"
     if (isinstance(e, ast.Dict) and len(e.keys) == 1 and isinstance(e.keys[0], ast.Constant)
             and e.keys[0].value == "time" and isinstance(e.values[0], ast.Constant) and e.values[0].value == 0.0):
         return "time"
     src = ast.unparse(e)
-    if src in LEAF_ROLES:
-        return LEAF_ROLES[src]
+    if src in FIXED_ROLES:
+        return FIXED_ROLES[src]
+    if src in roles:
+        return roles[src]
     raise Unsupported(f"union operand {src!r} is not a recognised container")
 
 
-def union_term(e: ast.expr) -> str:
+def union_term(e: ast.expr, roles) -> str:
     """`a | b | c` (any parenthesisation) -> `u (u a b) c` following the source tree"""
     if isinstance(e, ast.BinOp) and isinstance(e.op, ast.BitOr):
-        return f"(u {union_term(e.left)} {union_term(e.right)})"
-    return leaf_role(e)
+        return f"(u {union_term(e.left, roles)} {union_term(e.right, roles)})"
+    return leaf_role(e, roles)
 
 
-def leaves(e: ast.expr) -> list[str]:
+def leaves(e: ast.expr, roles) -> list[str]:
     if isinstance(e, ast.BinOp) and isinstance(e.op, ast.BitOr):
-        return leaves(e.left) + leaves(e.right)
-    return [leaf_role(e)]
+        return leaves(e.left, roles) + leaves(e.right, roles)
+    return [leaf_role(e, roles)]
 
 
 def the_assign(fn: ast.FunctionDef, target: str) -> ast.expr:
-    found = [n for n in ast.walk(fn)
-             if isinstance(n, (ast.Assign, ast.AnnAssign))
-             and (n.targets[0] if isinstance(n, ast.Assign) else n.target).__class__ is ast.Name
-             and (n.targets[0] if isinstance(n, ast.Assign) else n.target).id == target]
+    found = []
+    for n in ast.walk(fn):
+        if isinstance(n, ast.Assign) and len(n.targets) == 1 and isinstance(n.targets[0], ast.Name) and n.targets[0].id == target:
+            found.append(n.value)
+        elif isinstance(n, ast.AnnAssign) and isinstance(n.target, ast.Name) and n.target.id == target and n.value is not None:
+            found.append(n.value)
     if len(found) != 1:
         raise Unsupported(f"expected exactly one assignment to {target} in {fn.name}, found {len(found)}")
-    if found[0].value is None:
-        raise Unsupported(f"{target} is declared without a value in {fn.name}")
-    return found[0].value
+    return found[0]
 
 
-def combinator(name: str, params: list[str], e: ast.expr, doc: str) -> str:
-    used = leaves(e)
+def eval_loop(fn: ast.FunctionDef, over: str | None) -> tuple[str, str, str]:
+    """the loop `for n in <order>: <X>[n].calculate_inpl(n, <Y>)` -> (order expr, X, Y); locals are found by this USE,
+    not by their names"""
+    hits = []
+    for s in fn.body:
+        if not (isinstance(s, ast.For) and isinstance(s.target, ast.Name) and len(s.body) == 1 and not s.orelse):
+            continue
+        st = s.body[0]
+        if not (isinstance(st, ast.Expr) and isinstance(st.value, ast.Call)):
+            continue
+        c = st.value
+        n = s.target.id
+        if (isinstance(c.func, ast.Attribute) and c.func.attr == "calculate_inpl" and isinstance(c.func.value, ast.Subscript)
+                and isinstance(c.func.value.value, ast.Name) and ast.unparse(c.func.value.slice) == n
+                and len(c.args) == 2 and ast.unparse(c.args[0]) == n and isinstance(c.args[1], ast.Name) and not c.keywords):
+            hits.append((ast.unparse(s.iter), c.func.value.value.id, c.args[1].id))
+    if over is not None:
+        hits = [h for h in hits if h[0] == over]
+    if len(hits) != 1:
+        raise Unsupported(f"{fn.name}: expected exactly one loop `for n in {over or '<order>'}: X[n].calculate_inpl(n, Y)`, found {len(hits)}")
+    return hits[0]
+
+
+def combinator(name: str, params: list[str], e: ast.expr, doc: str, roles) -> str:
+    used = leaves(e, roles)
     if sorted(used) != sorted(params):
         raise Unsupported(f"{name}: operands {used} are not exactly {params} (each once)")
-    return (f"/-- `{doc} = {ast.unparse(e)}` -/\n"
-            f"def {name} {{α : Type}} (u : α → α → α) ({' '.join(params)} : α) : α :=\n  {union_term(e)}\n\n")
+    return (f"/-- `{doc}`: the union of {' | '.join(used)} in this order -/\n"
+            f"def {name} {{α : Type}} (u : α → α → α) ({' '.join(params)} : α) : α :=\n  {union_term(e, roles)}\n\n")
 
 
 # get_arg_names: the call that supplies a group -> group label
@@ -127,24 +187,43 @@ def generate(repo: Path, outdir: Path) -> bool:
     gn = find_function(tree, "get_arg_names", "Model")
     text = (HEADER.format(src="src/mxlpy/model.py::Model._create_cache/_get_args/get_arg_names", tr="c01.py")
             + "namespace Mxl.Generated.C01Cache\n\n")
-    text += combinator("toSortOf", ["ias", "derived", "rxns", "surs"], the_assign(cc, "to_sort"), "to_sort")
-    text += combinator("availableOf", ["pars", "vars", "data", "time"], the_assign(cc, "available"), "available")
-    text += combinator("dependentOf", ["pars", "vars", "data", "time"], the_assign(cc, "dependent"), "dependent")
-    text += combinator("argsOf", ["allpars", "state", "data"], the_assign(ga, "args"), "args")
-    text += combinator("containersOf", ["derived", "rxns", "surs"], the_assign(ga, "containers"), "containers")
-    # `args["time"] = time` must still follow the union in _get_args, the data sets must still be popped
+    # ---- _create_cache: the evaluation pass `for name in order: to_sort[name].calculate_inpl(name, dependent)`
+    roles = local_roles(cc)
+    order_var, to_sort_var, dependent_var = eval_loop(cc, None)
+    # `order` must be what _sort_dependencies returned for (available, elements built from to_sort)
+    order_val = the_assign(cc, order_var)
+    if not (isinstance(order_val, ast.Call) and ast.unparse(order_val.func) == "_sort_dependencies"):
+        raise Unsupported("the evaluation order of _create_cache is no longer the result of _sort_dependencies")
+    kw = {k.arg: k.value for k in order_val.keywords}
+    avail = kw.get("available", order_val.args[0] if order_val.args else None)
+    elements = kw.get("elements", order_val.args[1] if len(order_val.args) > 1 else None)
+    if not isinstance(avail, ast.Name) or elements is None:
+        raise Unsupported("_sort_dependencies is no longer called with a local `available` and an `elements` list")
+    if not (isinstance(elements, ast.ListComp) and len(elements.generators) == 1
+            and ast.unparse(elements.generators[0].iter) == f"{to_sort_var}.items()"):
+        raise Unsupported("the elements handed to _sort_dependencies are no longer built from the evaluated dict's items")
+    text += combinator("toSortOf", ["ias", "derived", "rxns", "surs"], the_assign(cc, to_sort_var), "to_sort", roles)
+    text += combinator("availableOf", ["pars", "vars", "data", "time"], the_assign(cc, avail.id), "available", roles)
+    text += combinator("dependentOf", ["pars", "vars", "data", "time"], the_assign(cc, dependent_var), "dependent", roles)
+    # ---- _get_args: `args = cache.all_parameter_values | variables | self._data; args["time"] = time;
+    #                  for name in cache.dyn_order: containers[name].calculate_inpl(name, args); pop the data sets`
+    pos = [a.arg for a in ga.args.args]
+    if len(pos) < 3 or pos[0] != "self":
+        raise Unsupported("_get_args no longer takes (self, variables, time, …)")
+    state_par, time_par = pos[1], pos[2]
+    cache_par = next((a.arg for a in ga.args.kwonlyargs + ga.args.args if a.arg == "cache"), None)
+    if cache_par is None:
+        raise Unsupported("_get_args no longer takes the cache")
+    _, cont_var, args_var = eval_loop(ga, f"{cache_par}.dyn_order")
+    groles = {f"{cache_par}.all_parameter_values": "allpars", state_par: "state"}
+    text += combinator("argsOf", ["allpars", "state", "data"], the_assign(ga, args_var), "args", groles)
+    text += combinator("containersOf", ["derived", "rxns", "surs"], the_assign(ga, cont_var), "containers", groles)
     gsrc = [ast.unparse(s) for s in ga.body]
-    if "args['time'] = time" not in gsrc:
+    if f"{args_var}['time'] = {time_par}" not in gsrc:
         raise Unsupported("_get_args no longer sets args['time'] = time")
-    if not any(s.startswith("for k in self._data:") and "args.pop(k)" in s for s in gsrc):
+    if not any(isinstance(s, ast.For) and ast.unparse(s.iter) == "self._data" and len(s.body) == 1
+               and ast.unparse(s.body[0]) == f"{args_var}.pop({s.target.id})" for s in ga.body if isinstance(s, ast.For)):
         raise Unsupported("_get_args no longer removes the data sets from the returned dict")
-    # the evaluation pass of _create_cache walks `order` and evaluates `to_sort[name]` in place on `dependent`
-    if not any(isinstance(s, ast.For) and ast.unparse(s.iter) == "order"
-               and ast.unparse(s.body[0]) == "to_sort[name].calculate_inpl(name, dependent)" for s in cc.body):
-        raise Unsupported("_create_cache no longer evaluates `to_sort[name].calculate_inpl(name, dependent)` along `order`")
-    if not any(isinstance(s, ast.For) and ast.unparse(s.iter) == "cache.dyn_order"
-               and ast.unparse(s.body[0]) == "containers[name].calculate_inpl(name, args)" for s in ga.body):
-        raise Unsupported("_get_args no longer evaluates `containers[name].calculate_inpl(name, args)` along `cache.dyn_order`")
     groups = arg_groups(gn)
     text += ("/-- `get_arg_names`: (flag consulted, group appended) in the order of the method body -/\n"
              "def argGroups : List (String × String) :=\n  ["
